@@ -613,12 +613,14 @@ func (vlog *valueLog) open(db *DB) error {
 		if vlog.opt.ReadOnly {
 			flags = os.O_RDONLY
 		}
-		if err := lf.open(vlog.fpath(fid), flags,
-			2*vlog.opt.ValueLogFileSize); err != nil {
+		// z.NewFile means that the file existed but was empty: the process died while the file was
+		// being created or deleted. lf.open has set it up as an empty value log file.
+		err := lf.open(vlog.fpath(fid), flags, 2*vlog.opt.ValueLogFileSize)
+		if err != nil && err != z.NewFile {
 			return y.Wrapf(err, "Open existing file: %q", lf.path)
 		}
 		// We shouldn't delete the maxFid file.
-		if lf.size.Load() == vlogHeaderSize && fid != vlog.maxFid && !vlog.opt.ReadOnly {
+		if (lf.size.Load() == vlogHeaderSize || err == z.NewFile) && fid != vlog.maxFid && !vlog.opt.ReadOnly {
 			vlog.opt.Infof("Deleting empty file: %s", lf.path)
 			if err := lf.Delete(); err != nil {
 				return y.Wrapf(err, "while trying to delete empty file: %s", lf.path)
